@@ -142,7 +142,6 @@ static void sched_run(ABT_sched sched)
             if (thread != ABT_THREAD_NULL) {
                 ABTI_thread *p_thread = ABTI_thread_get_ptr(thread);
                 ABTI_ythread_schedule(p_global, &p_local_xstream, p_thread);
-                break;
             }
         }
 
